@@ -429,6 +429,12 @@ class Gen:
                     b["iface"] = ch.choice(module["_absifaces"])
                     b["attrs"].append("nopass")
                     has_deferred = True
+                elif self.cfg.get("outside") and ch.bool(1, 3):
+                    # bound to a procedure of a module that is not part of the project (a third-party library)
+                    ext = self.name("xt")
+                    module.setdefault("_outside", []).append(ext)
+                    b["attrs"].append("nopass")
+                    b["target"] = ext
                 else:
                     use_pass = ch.bool(1, 3)
                     sig = [ARG_SIG_TYPES[i % len(ARG_SIG_TYPES)]]
@@ -571,6 +577,8 @@ class Gen:
         for _ in range(ch.weighted([(2, 0), (3, 1), (2, 2)])):
             m["procs"].append(self.procedure(m, 0))
         m["procs"].extend(m.pop("_pending_procs"))
+        if m.get("_outside"):
+            m["uses"].append({"module": "xt_lib", "nature": None, "only": [[n, None] for n in m.pop("_outside")], "renames": []})
         if self.cfg["access"]:
             for p in m["procs"]:
                 if ch.bool(1, 5):
